@@ -118,7 +118,7 @@ def run(tier, seed):
     work = engine.workdir("C03")
     try:
         consts = {"MaxTok": 4, "Full": "FALSE"} if tier == "quick" else {"MaxTok": 4, "Full": "TRUE"}
-        res = engine.run_tlc(work, "MC_C03", constants=consts, invariants=["NothingFromHidden", "CompleteIsBalanced"], timeout=7200)
+        res = engine.run_tlc(work, "MC_C03", constants=consts, invariants=["NothingFromHidden", "CompleteIsBalanced", "WriterLaw"], timeout=7200)
         run.add_tlc(res, "DocCore documents, %s" % consts)
         n = 0
         for case, r in engine.replay("harness.c03", cases_from_dump(res["dump"], seed), chunk=100):
